@@ -11,6 +11,7 @@
 #include <unistd.h>
 
 #include <algorithm>
+#include <cerrno>
 #include <chrono>
 #include <cstdio>
 #include <cstring>
@@ -478,6 +479,21 @@ extern "C" void verif_point(int id, const void* a, const void* b)
         if (!W->uci_destroyed)  // after main() destroyed the engine object the harness keeps its hands off engine memory
         {
             if (t->force_stop && t->search_obj) static_cast<engine::Search*>(t->search_obj)->stop_search = true;
+            // C09, "terminates on its own" seen from the inside: the root (ply 0) is entered once per aspiration attempt.
+            // The engine widens its window geometrically, a few dozen attempts at most; a thousand entries of the root
+            // inside one iteration is a re-search loop that no longer makes progress (a GUI's stop would hide it).
+            if (id == VERIF_PT_NODE && b && static_cast<const engine::Info*>(b)->_ply == 0 && t->go_index >= 0)
+            {
+                ++t->root_visits_iter;
+                if (t->root_visits_iter == 100) W->counters["root_entered_100_times_in_one_iteration"]++;
+                if (t->root_visits_iter == 1000 && !t->force_stop)
+                {
+                    GoRec& g = W->gos[t->go_index];
+                    W->violation("C09", "iteration-never-completes", "'" + g.line + "' in " + g.root.fen() + ": the root was searched 1000 times inside iteration " + std::to_string(g.iterations_done + 1) +
+                                                                          " (" + std::to_string(t->nodes) + " node visits), the re-search loop makes no progress");
+                    t->force_stop = true;
+                }
+            }
             if (W->monitors_on) W->monitor_node(t, id, pos, static_cast<const engine::Info*>(b));
             if (t->nf_next < t->node_faults.size() && t->node_faults[t->nf_next].k <= t->nodes) apply_node_faults(t, pos);
         }
@@ -505,6 +521,7 @@ extern "C" void verif_point(int id, const void* a, const void* b)
     case VERIF_PT_GO_AFTER_RESET:
     case VERIF_PT_ITER_DONE:
         if (g_debug) fprintf(stderr, "[go phase %d task %d] Search %p flag=%d\n", id, t->id, a, int(static_cast<const engine::Search*>(a)->stop_search));
+        if (id == VERIF_PT_ITER_DONE || id == VERIF_PT_GO_AFTER_RESET) t->root_visits_iter = 0;
         W->on_go_phase(t, id);
         yieldpoint(t, id);
         break;
@@ -829,6 +846,47 @@ extern "C" int pthread_join(pthread_t th, void** ret)
         t->join_target = -1;
     }
     return __interceptor_pthread_join(th, ret);
+}
+// The same holds for a sleep: with the simulated clock standing still a real sleep of a simulated task would hold the
+// baton for its whole length (and the deadlines it is computed from are simulated ones).  The sanitizer's `nanosleep`
+// is a weak alias as well; a sleeping task parks in the scheduler until the simulated clock reaches its wake-up time.
+namespace sim
+{
+static void sim_sleep_tsan(Task* t, int64_t ns)
+{
+    t->wake_ns = W->clock_ns + (ns > 0 ? ns : 0);
+    W->counters["sync_sleeps"]++;
+    do task_yield(t, ST_SLEEP, PT_SLEEP);
+    while (W->clock_ns < t->wake_ns);
+    t->wake_ns = -1;
+}
+}  // namespace sim
+extern "C" int __interceptor_nanosleep(const struct timespec*, struct timespec*) __attribute__((weak));
+extern "C" int nanosleep(const struct timespec* req, struct timespec* rem)
+{
+    sim::Task* t = sim::W ? sim::tl_task : nullptr;
+    if (!t)
+    {
+        if (__interceptor_nanosleep) return __interceptor_nanosleep(req, rem);
+        return int(syscall(SYS_nanosleep, req, rem));
+    }
+    sim::sim_sleep_tsan(t, int64_t(req->tv_sec) * 1000000000LL + req->tv_nsec);
+    return 0;
+}
+extern "C" int clock_nanosleep(clockid_t clk, int flags, const struct timespec* req, struct timespec* rem)
+{
+    sim::Task* t = sim::W ? sim::tl_task : nullptr;
+    if (!t) return int(syscall(SYS_clock_nanosleep, clk, flags, req, rem)) == 0 ? 0 : errno;
+    int64_t ns = int64_t(req->tv_sec) * 1000000000LL + req->tv_nsec;
+    if (flags & TIMER_ABSTIME)
+    {
+        // deadlines are computed from the simulated clocks (steady: clock_ns; wall: the same plus the epoch offset)
+        if (clk == CLOCK_REALTIME) ns -= 1600000000000000000LL + sim::W->cfg.epoch_offset_us * 1000;
+        else ns -= 1000000000LL;
+        ns -= sim::W->clock_ns;
+    }
+    sim::sim_sleep_tsan(t, ns);
+    return 0;
 }
 #endif
 
@@ -2021,6 +2079,22 @@ RunResult run_world(const Script& script)
                 }
                 if (next >= 0)
                 {
+                    // C06, promptness in simulated time: a stop has been handled, the go is unanswered, and no engine thread
+                    // can run until a timer of the engine's own (a sleep or a timed wait) expires: the GUI waits for that timer,
+                    // not for the search.  Half a second of such waiting is not "a short time after the stop"; a thread that
+                    // polls the flag between short sleeps never gets here with so late a deadline.
+                    if (world.cur_go >= 0 && !(world.gui_time_event >= 0 && next == world.gui_time_event))
+                    {
+                        GoRec& g = world.gos[world.cur_go];
+                        Task* st = g.task >= 0 ? &world.tasks[g.task] : nullptr;
+                        if (st && g.stop_processed && g.bestmoves == 0 && st->state != ST_DONE && !st->force_stop && !g.idle_after_stop_flagged &&
+                            next - g.clock_at_stop > 500000000LL)
+                        {
+                            g.idle_after_stop_flagged = true;
+                            world.violation("C06", "no-bestmove-after-stop", "'" + g.line + "' stop consumed in window " + g.stop_window + ": every engine thread sleeps or waits on a timer that expires " +
+                                                                                 std::to_string((next - g.clock_at_stop) / 1000000) + " ms of simulated time after the stop, and the go is still unanswered");
+                        }
+                    }
                     world.clock_ns = next;
                     world.counters["clock_jumps"]++;
                     continue;
